@@ -56,6 +56,7 @@ def c01(ctx):
         D.r_it_step3(ctx, prog)
         F.r_ro_flow(ctx, prog, MAIN3)
         SB.r_siblings(ctx, prog, ['rs-algebra', 'rs-api'])
+        F.r_init_order(ctx, prog, MAIN3)
         KN.r_kernel_shape(ctx, prog)
         KN.r_kea(ctx, prog, list(range(0, 2 * KN.P + 9)), [0, 1, 2, 3, 4, 5, 7, 8, 9, 12, 13, 16, 20])
     return dict(
@@ -100,6 +101,7 @@ def c04(ctx):
         D.r_count(ctx, prog, [3])
         D.r_complete(ctx, prog, [3])
         D.r_it_step3(ctx, prog)
+        F.r_init_order(ctx, prog, [3])
         I.r_layout(ctx, prog, [3])
         D.r_retset(ctx, prog, [3])
         CB.r_cb(ctx, prog, [3])
@@ -246,6 +248,7 @@ def c08(ctx):
         O.r_own_elem(ctx, prog, MAIN3)
         O.r_own_elem_local(ctx, prog, 'api')
         O.r_own_local(ctx, prog, 'api')
+        O.r_own_overwrite(ctx, prog)
         O.r_uaf(ctx, prog, 'api')
         O.r_dangling(ctx, prog, 'api')
     return dict(
@@ -426,9 +429,18 @@ def c03(ctx):
     for prog in programs(ctx):
         D.r_setavail(ctx, prog, [3])
         F.r_ml_pipeline(ctx, prog)
+        F.r_ml_giveup(ctx, prog)
+        F.r_init_order(ctx, prog, [3])
         D.r_finish_truth(ctx, prog, [3])
         MX.r_pairswap(ctx, prog)
         MX.r_scratch_reset(ctx, prog)
+        # ML decoding starts from the state the iterative decoder leaves, including the pre-loaded null last repair symbol: that
+        # claim must be sound, and the XOR kernels the solver uses must be byte-exact
+        K.r_flag_truth(ctx, prog)
+        K.r_extra_mark(ctx, prog)
+        K.r_nullfeed(ctx, prog)
+        KN.r_kernel_shape(ctx, prog, KN.XOR_KINDS)
+        KN.r_kea(ctx, prog, list(range(0, 2 * KN.P + 9)), [0, 1, 2, 3, 4, 5, 7, 8, 9, 12, 13, 16, 20], KN.XOR_KINDS)
     return dict(
         explanation='Mechanism only. R-SETAVAIL: the bulk submission API is n per-symbol submissions, so the outcome cannot depend on the '
         'API. R-ML-PIPELINE: every path of the ML routine to OK through the solver passes, in order, the injection of all k source '
@@ -436,8 +448,8 @@ def c03(ctx):
         'over all k slots. R-FINISH-TRUTH: the status is OK only when complete and FAILURE only after a negative completion test. '
         'R-PAIRSWAP / R-SCRATCH-RESET: the solver keeps right-hand sides with their rows and starts from an empty scratch list.',
         decides=['API/order-independence mechanism; completeness of the injection and write-back stages; status/completion agreement'],
-        not_decided=['"succeeds iff the source symbols are uniquely determined": a rank condition; the give-up test, pivot search and '
-                     'back-substitution are right or wrong by their values, no structural clause of it exists'])
+        not_decided=['"succeeds iff the source symbols are uniquely determined": a rank condition; pivot search and '
+                     'back-substitution are right or wrong by their values (the dimension give-up test is decided by R-ML-GIVEUP)'])
 
 
 @prop('C06')
@@ -519,6 +531,8 @@ def c16(ctx):
         F.r_nullslot(ctx, prog, [5])
         F.r_enc_loop(ctx, prog, [5])
         F.r_ro_flow(ctx, prog, [5])
+        F.r_init_order(ctx, prog, [5])
+        F.r_2d_divisible(ctx, prog)
         F.r_2d_radix(ctx, prog)
         SB.r_siblings(ctx, prog, ['lb-api'])
         O.r_own_field(ctx, prog, [5], helpers=False)
